@@ -62,7 +62,7 @@ func ValidateHOTP(secret, code string, counter uint64, param *Param) (bool, erro
 	for i := -skew; i <= skew; i++ {
 		var c uint64
 		if i < 0 {
-			if int64(counter) < -i {
+			if counter < uint64(-i) {
 				continue // prevent underflow
 			}
 			c = counter - uint64(-i)
